@@ -135,6 +135,22 @@ pub fn file_text(kind: &str, n: u32, variant: u32) -> String {
             1 => format!("---@type Multi{n}\nlocal m{n} = {{}}\nlocal w{n} = m{n}.v\nreturn w{n}\n"),
             _ => format!("---@param m Multi{n}\nlocal function f{n}(m)\n    return m.v, m.a, m.b\nend\nreturn f{n}\n"),
         },
+        // ---- the same member key of one table / class defined in two different files
+        "memb_a" => match v {
+            0 => format!("---@class Conf{n}\nConf{n} = {{}}\nConf{n}.level = 1\n\n---@class (partial) Opt{n}\n---@field k integer\n"),
+            1 => format!("---@class Conf{n}\nConf{n} = {{}}\nConf{n}.level = true\nfunction Conf{n}.get() return 1 end\n\n---@class (partial) Opt{n}\n---@field k boolean\n"),
+            _ => format!("---@class Conf{n}\nConf{n} = {{}}\n"),
+        },
+        "memb_b" => match v {
+            0 => format!("Conf{n}.level = \"high\"\nfunction Conf{n}.get() return \"s\" end\n\n---@class (partial) Opt{n}\n---@field k string\n"),
+            1 => format!("Conf{n}.level = 2.5\n\n---@class (partial) Opt{n}\n---@field k number\n---@field only_b integer\n"),
+            _ => format!("Conf{n}.other = 1\n"),
+        },
+        "memb_use" => match v {
+            0 => format!("local lv{n} = Conf{n}.level\nlocal g{n} = Conf{n}.get()\n---@type Opt{n}\nlocal o{n} = {{}}\nlocal k{n} = o{n}.k\nreturn lv{n}, g{n}, k{n}\n"),
+            1 => format!("---@type Opt{n}\nlocal o{n} = {{}}\n---@type string\nlocal ks{n} = o{n}.k\nreturn ks{n}\n"),
+            _ => format!("return Conf{n}.level\n"),
+        },
         _ => format!("return {n}\n"),
     }
 }
@@ -152,6 +168,7 @@ pub fn group(kind: &str, n: u32) -> Vec<FileSpec> {
         "broken" => vec![f(format!("d/broken{n}.lua"), "broken")],
         "meta" => vec![f(format!("meta/m{n}.lua"), "meta"), f(format!("meta/use{n}.lua"), "meta_use")],
         "lib" => vec![f(format!("lib/libmod{n}.lua"), "lib"), f(format!("app/libuse{n}.lua"), "lib_use")],
+        "member" => vec![f(format!("mb/a{n}.lua"), "memb_a"), f(format!("mb/b{n}.lua"), "memb_b"), f(format!("mb/use{n}.lua"), "memb_use")],
         "inherit" => vec![
             f(format!("inh/bases{n}.lua"), "inh_bases"),
             f(format!("inh/part_a{n}.lua"), "inh_part_a"),
@@ -162,7 +179,7 @@ pub fn group(kind: &str, n: u32) -> Vec<FileSpec> {
     }
 }
 
-pub const GROUP_KINDS: &[&str] = &["class", "glob", "mod", "cycle", "types", "diag", "broken", "meta", "lib", "inherit"];
+pub const GROUP_KINDS: &[&str] = &["class", "glob", "mod", "cycle", "types", "diag", "broken", "meta", "lib", "inherit", "member"];
 
 /// Draw a workspace of `lo..=hi` files.
 pub fn gen_workspace(r: &mut Rng, lo: usize, hi: usize) -> Vec<FileSpec> {
